@@ -235,7 +235,7 @@ private:
             // @todo: For now we're reading the whole scanline which is
             // slightly inefficient. Later versions should try to read
             // only the bytes which are necessary.
-            this->_io_dev.read( &row.front(), row.size() );
+            this->_io_dev.read_all( &row.front(), row.size() );
             this->_cc_policy.read( beg, end, view.row_begin(y) );
         }
     }
@@ -282,7 +282,7 @@ private:
                 io_error_if( pixel + pixels_written > image_size
                            , "Mangled TARGA file: raw packet exceeds the image."
                            );
-                this->_io_dev.read( &image_data[pixel], pixels_written );
+                this->_io_dev.read_all( &image_data[pixel], pixels_written );
                 pixel += pixels_written;
             }
         }
